@@ -1619,6 +1619,7 @@ func runNestedKills(p *Program, sp *Spec, c *Collector, nk NestedKillSpec) {
 		// kills of map-typed package variables in the callback and in the helpers it calls (not other callbacks)
 		var bad ssa.Instruction
 		var name string
+		var siteBlock, curTop *ssa.BasicBlock // the block of the callback through which the kill is reached
 		seen := map[*ssa.Function]bool{}
 		var visit func(f *ssa.Function, depth int)
 		visit = func(f *ssa.Function, depth int) {
@@ -1627,6 +1628,9 @@ func runNestedKills(p *Program, sp *Spec, c *Collector, nk NestedKillSpec) {
 			}
 			seen[f] = true
 			for _, b := range f.Blocks {
+				if depth == 0 {
+					curTop = b
+				}
 				for _, in := range b.Instrs {
 					switch x := in.(type) {
 					case *ssa.Store:
@@ -1639,10 +1643,10 @@ func runNestedKills(p *Program, sp *Spec, c *Collector, nk NestedKillSpec) {
 						}
 						switch v := x.Val.(type) {
 						case *ssa.MakeMap:
-							bad, name = in, gv.Name()
+							bad, name, siteBlock = in, gv.Name(), curTop
 						case *ssa.Const:
 							if v.IsNil() {
-								bad, name = in, gv.Name()
+								bad, name, siteBlock = in, gv.Name(), curTop
 							}
 						}
 					case *ssa.Call:
@@ -1659,8 +1663,8 @@ func runNestedKills(p *Program, sp *Spec, c *Collector, nk NestedKillSpec) {
 		switch {
 		case bad == nil:
 			c.Ob(nk.Props, "E6.nested-kill", key, Discharged, "rule "+rule+" can occur inside itself (through "+via+"); the callback re-makes no lookup table", p.FuncPos(fn), true)
-		case nestingTested(p, fn):
-			c.Ob(nk.Props, "E6.nested-kill", key, Discharged, "rule "+rule+" can occur inside itself; the callback re-makes "+name+" but tells nested from outermost occurrences", p.FuncPos(fn), true)
+		case nestingTested(p, fn) && killGuarded(p, fn, siteBlock):
+			c.Ob(nk.Props, "E6.nested-kill", key, Discharged, "rule "+rule+" can occur inside itself; the callback re-makes "+name+" only under its test of nested against outermost occurrences", p.FuncPos(fn), true)
 		default:
 			c.Ob(nk.Props, "E6.nested-kill", key, Violated, nk.What+": rule "+rule+" can occur inside itself (through "+via+"), and the callback re-makes the lookup table "+name+" on every occurrence: what the enclosing occurrence had registered is gone for the rest of its body", p.InstrPos(bad), false)
 		}
@@ -2178,4 +2182,24 @@ func runPositional(p *Program, sp *Spec, c *Collector, pa PositionalSpec) {
 			}
 		}
 	}
+}
+
+// killGuarded: the block of the callback through which the table is re-made is reached only under a condition that looks at
+// the node's parent or at a package-level depth counter (a parent test that guards something else does not count).
+func killGuarded(p *Program, fn *ssa.Function, site *ssa.BasicBlock) bool {
+	if site == nil {
+		return false
+	}
+	sf := newSymFn(p, fn, 0)
+	sf.inlineOK = func(*ssa.Function) bool { return false }
+	guarded := false
+	sf.pathCond(site).walk(func(x *Sym) {
+		if n, ok := invokeName(x); ok && n == "GetParent" {
+			guarded = true
+		}
+		if x.Op == "global" || strings.HasPrefix(x.String(), "global(") {
+			guarded = true
+		}
+	})
+	return guarded
 }
